@@ -83,6 +83,7 @@ class Env:
         self.obj = {}
         self.meta = {}  # name -> dict (arrays only)
         self.orig = {}  # id(arr) -> (weakref, orig flag, descriptor dict)   [user arrays]
+        self.held_exc = None  # the exception of the statement being observed (see exec_stmt)
 
     def note_user_array(self, arr, orig, desc):
         self.orig[id(arr)] = (weakref.ref(arr), bool(orig), desc)
@@ -217,6 +218,9 @@ def exec_stmt(env: Env, st):
     except HarnessError:
         raise
     except Exception as e:  # the statement raised inside MyGrad / NumPy
+        # the caller is still "inside the handler" while it observes the flags: the exception object (and with it the
+        # traceback and the frames of the failed call) stays referenced until the observation is over
+        env.held_exc = e
         return type(e).__name__
     return "-"
 
@@ -750,6 +754,7 @@ def run_history(hist, with_spy=True, noreuse=False):
                 spy.lines.append("lock flags")
                 stmt_marks.append((len(spy.lines) - 1, spy.flags_line(), n))
             oracle.check(n, guard_depth == 0, st)
+            env.held_exc = None
         # quiescence: drop everything the user holds, tensors first (in name order), then arrays
         for name in sorted(k for k, v in env.obj.items() if isinstance(v, mg.Tensor)):
             del env.obj[name]
